@@ -82,7 +82,9 @@ func NewWhitespaceError(msg string) error {
 var emptyWhitespaceError whitespaceError
 
 func IsWhitespaceError(err error) bool {
-	return errors.As(err, &emptyWhitespaceError)
+	// errors.As WRITES its target: a package-level target would be shared by all concurrent parses
+	var target whitespaceError
+	return errors.As(err, &target)
 }
 
 type NotFoundError string
@@ -94,5 +96,7 @@ func (n NotFoundError) Error() string {
 var emptyNotFoundError NotFoundError
 
 func IsNotFoundError(err error) bool {
-	return errors.As(err, &emptyNotFoundError)
+	// errors.As WRITES its target: a package-level target would be shared by all concurrent parses
+	var target NotFoundError
+	return errors.As(err, &target)
 }
